@@ -8,9 +8,15 @@ const char* const H_NAME = "c12_barrier";
 const char* const H_PROPERTY = "C12";
 
 #define MAXR 6
-static fiber_barrier_t bar;
+static fiber_barrier_t* barp;
+#define bar (*barp)
 static int bcount, brounds, yield_mode;
 static int arrived[MAXR], serial[MAXR], returned[MAXR];
+static NS void g_new_phase(void) {
+  memset(arrived, 0, sizeof arrived);
+  memset(serial, 0, sizeof serial);
+  memset(returned, 0, sizeof returned);
+}
 
 static NS void g_arrive(int k) { arrived[k]++; }
 static NS void g_return(int k, int r, int who) {
@@ -43,13 +49,27 @@ void h_run(void) {
   if (bcount >= 2 && (c.threads >= 2 || brounds >= 2)) sim_nontrivial();
   sim_fiber_mode();
   fiber_manager_init(c.threads);
-  fiber_barrier_init(&bar, bcount);
-  fiber_t* f[8];
-  for (int i = 0; i < bcount; i++) f[i] = fiber_create(STK, bfib, (void*)(intptr_t)i);
-  for (int i = 0; i < bcount; i++) fiber_join(f[i], NULL);
-  for (int k = 0; k < brounds; k++) {
-    if (serial[k] != 1) sim_violation("C12-serial-count", "round %d: %d fibers were told they are the serial fiber", k, serial[k]);
-    if (returned[k] != bcount) sim_violation("C12-not-all-returned", "round %d: %d of %d returned", k, returned[k], bcount);
+  /* the barrier lives in heap memory with arbitrary previous contents; in a second phase the same object is
+   * destroyed and initialised again for another number of fibers */
+  barp = h_dirty_alloc(sizeof *barp);
+  const int phases = wl_pct(25) ? 2 : 1;
+  for (int ph = 0; ph < phases; ph++) {
+    if (ph) {
+      fiber_barrier_destroy(&bar);
+      bcount = wl_int(1, 5);
+      brounds = wl_int(1, 3);
+      g_new_phase();
+    }
+    fiber_barrier_init(&bar, bcount);
+    fiber_t* f[8];
+    for (int i = 0; i < bcount; i++) f[i] = fiber_create(STK, bfib, (void*)(intptr_t)i);
+    for (int i = 0; i < bcount; i++) fiber_join(f[i], NULL);
+    for (int k = 0; k < brounds; k++) {
+      if (serial[k] != 1) sim_violation("C12-serial-count", "round %d: %d fibers were told they are the serial fiber", k, serial[k]);
+      if (returned[k] != bcount) sim_violation("C12-not-all-returned", "round %d: %d of %d returned", k, returned[k], bcount);
+    }
   }
+  fiber_barrier_destroy(&bar);
+  free(barp);
   h_fiber_end();
 }
